@@ -257,14 +257,18 @@ struct HSys {
             v.push_back({"B.Insert(K&&,V&&)", 5, 4});
             v.push_back({"B.Insert(K&&,V&&)", 4, 4});
             v.push_back({"B.Remove(K ptr,len)", 1, 0});
+            v.push_back({"A: insert the first four keys", -1, 2}); // one step to a full table of capacity 4, so that depth 4 reaches beyond it
             v.push_back({"A+=B", -1, 0});
             v.push_back({"A+=move(B)", -1, 0});
+            v.push_back({"A+=A (const&)", -1, 0});
             v.push_back({"A.Reserve(#)", 0, 0});
             v.push_back({"A.Reserve(#)", 2, 0});
             v.push_back({"A.Reserve(#)", 3, 0});
             v.push_back({"A.Resize(Size)", -1, 0});
             v.push_back({"A.Resize(Size+3)", -1, 0});
             v.push_back({"A.Resize(0)", -1, 0});
+            v.push_back({"A.Resize(Size-#)", 1, 0});
+            v.push_back({"A.Resize(Size-#)", 2, 0});
             v.push_back({"A.Expect(#)", 1, 0});
             v.push_back({"A.Expect(#)", 5, 0});
             v.push_back({"A.Compress", -1, 0});
@@ -497,6 +501,18 @@ struct HSys {
                 a += std::move(b);
                 mb.clear();
             }
+        } else if (n == "A: insert the first four keys") {
+            for (int k = 0; k < 4; k++) {
+                const std::string kk = KEYS().k[(size_t)k];
+                if (mfind(ma, kk) < 0) {
+                    inserted_new = true;
+                }
+                ins(a, 0, kk, v);
+                mput(ma, kk, v);
+            }
+        } else if (n == "A+=A (const&)") {
+            const T &self = a; // merging a table into itself leaves it as it is
+            a += self;
         } else if (n == "A.Reserve(#)") {
             a.Reserve(SizeT(o.k));
             ma.clear();
@@ -509,6 +525,17 @@ struct HSys {
             }
             SizeT want = a.Size() + (n == "A.Resize(Size)" ? 0 : 3);
             a.Resize(want);
+            if (a.Capacity() < want) {
+                err = "Resize(n) did not provide the capacity";
+            }
+        } else if (n == "A.Resize(Size-#)") {
+            // shrinking drops the last slots; which entries those are is only defined while no slot is a removed one
+            if (a.Size() != a.ActualSize() || a.Size() <= SizeT(o.k)) {
+                return false;
+            }
+            SizeT want = a.Size() - SizeT(o.k);
+            a.Resize(want);
+            ma.resize((size_t)want);
             if (a.Capacity() < want) {
                 err = "Resize(n) did not provide the capacity";
             }
